@@ -240,6 +240,12 @@ func c11() {
 	h.Close()
 	r.Assume("endpoints are scripted (instrument I1): 'neither endpoint changed' is observed as 'no Stage/Supply/Transition call reached either endpoint'; the real-root variant (L3) belongs to the fsops/recon groups")
 	r.Assume("must-halt is decided from the inputs by this monitor's own rule (one-sided emptying; or one side deleted/retyped its root while the other still has the ancestor's root kind and differs from the ancestor by deletions at most, in a direction the mode propagates); all other inputs are judged only by the unconditional journal rules (no transition ever carries a root deletion or root type change)")
+	r.Note("sensitivity_mutants_caught_in_quick_tier", []string{
+		"controller.go: one-sided-emptying check skipped -> activity-after-one-sided-emptying, not-halted (130 violations)",
+		"controller.go: one-sided-emptying check moved after the transitions -> activity-after-one-sided-emptying (65)",
+		"safety.go: root type change to a directory not detected -> root-type-change-transition, not-halted",
+		"controller.go: run loop does not wait for the user after a safety halt -> not-halted / activity-while-halted",
+	})
 	if r.Counter("halted_cases") == 0 || r.Counter("cases_with_transitions") == 0 {
 		r.Inconclusive("sensor control failed: no halted case or no transition observed")
 		r.Finish("liveness control failed", 1<<30)
